@@ -515,3 +515,34 @@ where
     keyspace.send(msg).await?;
     Ok(())
 }
+
+#[cfg(datacake_verif)]
+pub(crate) mod verif {
+    use super::*;
+
+    /// Per-node state the repair loop keeps between cycles.
+    #[derive(Default)]
+    pub struct RepairState(KeyspaceTracker);
+
+    impl RepairState {
+        /// What the repair loop does when a peer leaves.
+        pub fn forget_node(&mut self, node_id: NodeId) {
+            self.0.remove_node(node_id)
+        }
+    }
+
+    /// Runs one repair cycle of the real poller against the given peers.
+    pub async fn repair_cycle<S: Storage>(
+        group: KeyspaceGroup<S>,
+        network: RpcNetwork,
+        peers: &BTreeMap<NodeId, SocketAddr>,
+        state: &mut RepairState,
+    ) {
+        let ctx = ReplicationCycleContext {
+            repair_interval: Duration::from_secs(1),
+            group,
+            network,
+        };
+        repair_members(&ctx, peers, &mut state.0).await
+    }
+}
